@@ -484,16 +484,15 @@ func execAlgCase(c *Sx, st *algStats) (out *Sx, viols []Violation) {
 		out.Add(observePool(pool))
 
 		// ---------------- oracle P ----------------
-		// Domain of the claim (C11): sets built by MakeConnectionSet / GetAllTCPConnections / AddConnection on a
-		// set that is not in the AllowAll form, from port sets built by additions only; then any sequence of
-		// Union, Intersection, Subtract, Copy and the predicates. Steps outside it (AddConnection on an AllowAll
-		// set, ReplaceNamedPort…, port sets built with RemovePort) are still compared with the model (K-diff) but
+		// Domain of the claim (C11): sets built by MakeConnectionSet / GetAllTCPConnections / AddConnection from port
+		// sets built by additions only; then any sequence of Union, Intersection, Subtract, Copy and the predicates.
+		// Steps outside it (ReplaceNamedPort…, port sets built with RemovePort) are still compared with the model (K-diff) but
 		// the oracle stops judging the case from there on.
 		switch op.Head() {
 		case "replace":
 			inDomain = false
 		case "addconn":
-			if strings.Contains(before[target], "(cs 1 ") || strings.Contains(op.L[3].String(), "(rm") {
+			if strings.Contains(op.L[3].String(), "(rm") {
 				inDomain = false
 			}
 		}
